@@ -124,6 +124,23 @@ def run_property(pid, tier, seed, args):
         if not c.deductive:
             reports.append({'contract': c, 'rep': None, 'error': None, 'gen_s': 0.0, 'bounded_only': True})
             continue
+        if getattr(c, 'syntactic', False):
+            # obligations decided on the AST itself (hold for every execution); recorded like any other obligation
+            from .contract import VerifyReport
+            from .interp import Obligation, fn_source
+            import hashlib, ast as _ast
+            rep = VerifyReport(c.target)
+            fnode, clsname, qual, path = fn_source(c.fn)
+            seg = _ast.get_source_segment(open(path).read(), fnode) or ''
+            rep.source = {'file': os.path.relpath(path, REPO), 'qualname': qual, 'line': fnode.lineno,
+                          'sha256': hashlib.sha256(seg.encode()).hexdigest(), 'lines': seg.count('\n') + 1}
+            for nm, ok in c.syntactic_obligations().items():
+                ob = Obligation('%s.syntactic.%s' % (qual, nm), [], z3.BoolVal(bool(ok)), 'post',
+                                {'contract': type(c).__name__, 'target': c.target})
+                rep.obligations.append(ob)
+            obligations += rep.obligations
+            reports.append({'contract': c, 'rep': rep, 'error': None, 'gen_s': time.time() - t1})
+            continue
         try:
             rep = verify_contract(c, registry)
         except OutOfSubset as e:
